@@ -31,6 +31,18 @@ Definition chain_canon (b: box) (inner: pv) : bool :=
 Definition chain_empty (chain: bool) (inner: pv) : bool :=
   chain && match inner with VList [] => true | _ => false end.
 
+(* Literal: "value.__class__ is (lit).__class__ and value == lit" for the scalar literal kinds
+   (enum-member and bytes literals are not modelled: they never match) *)
+Definition exact_eq (a b: pv) : bool :=
+  match a, b with
+  | VNone, VNone => true
+  | VBool x, VBool y => Bool.eqb x y
+  | VInt x, VInt y => Z.eqb x y
+  | VStr x, VStr y => String.eqb x y
+  | _, _ => false end.
+Definition lit_find (ls: list pv) (v: pv) : res pv :=
+  match find (exact_eq v) ls with Some l => Ok l | None => Exn XValueError end.
+
 (* ------------------------------------------------------------------ *)
 (* type grammar covered by the type-level theorems *)
 Inductive sty :=
@@ -50,10 +62,11 @@ Inductive sty :=
 | STyped (c: string)                   (* TypedDict class *)
 | SSeq (t: sty)                        (* Sequence / MutableSequence: a list, always built by comprehension *)
 | SMap (kt vt: sty)                    (* Mapping / MutableMapping: a dict, always built by comprehension *)
-| SBox (b: box) (t: sty).              (* a collection class wrapped around the list / dict the inner type describes:
+| SBox (b: box) (t: sty)               (* a collection class wrapped around the list / dict the inner type describes:
                                           Deque[T] = SBox BDeque (SSeq T), OrderedDict[K,V] = SBox BOrdered (SMap K V),
                                           DefaultDict / MappingProxyType likewise, Counter[K] = SBox BCounter (SMap K int),
                                           ChainMap[K,V] = SBox BChain (SSeq (SMap K V)) (wire form: the list of its maps) *)
+| SLit (ls: list pv).                 (* Literal[...] of int / str / bool / None constants: exactly one of them, exact class *)
 
 (* one class table for dataclasses, NamedTuples and TypedDicts; a class is looked up by kind
    and name.  [sf_default]: dataclass field default / NamedTuple field default (ignored for a
@@ -108,7 +121,8 @@ Inductive penc :=
 | EData (c: string)                     (* dataclass packer (plain Config) *)
 | ENamed (c: string)                    (* [e0(value[0]), e1(value[1]), ...] over the NamedTuple fields *)
 | ETyped (c: string)                    (* d = {}; d[k] = e(value[k]) for required keys; optional keys when present *)
-| EBox (chain: bool) (e: penc).         (* e applied to the deque / mapping object itself ("for value in x", "x.items()", "x.maps") *)
+| EBox (chain: bool) (e: penc)          (* e applied to the deque / mapping object itself ("for value in x", "x.items()", "x.maps") *)
+| ELit (ls: list pv).                   (* if value.__class__ is (l).__class__ and value == l: return value ... raise ValueError *)
 
 (* the index / slice descriptors computed by the arg_indexes loop of pack_tuple / unpack_tuple for
    [u] plain arguments, one unpacked argument, [m] plain arguments.  Hand-written closed form;
@@ -150,6 +164,7 @@ Fixpoint cp (cbn: bool) (t: sty) {struct t} : penc :=
   | SSeq t' => EListComp (cp true t')                      (* origin is not list: no .copy() *)
   | SMap kt vt => EDictComp (cp true kt) (cp true vt)      (* origin is not dict: no .copy() *)
   | SBox b t' => EBox (is_chain b) (cp true t')
+  | SLit ls => ELit ls
   end.
 
 (* field-level nullability (builder.py): Optional / Any / None annotation or default None *)
@@ -460,6 +475,7 @@ Section Run.
           match v with
           | VObj _ [(_, inner)] => if chain_empty ch inner then Ok (VList [VDict []]) else pk inner e'
           | _ => Exn XAttributeError end
+      | ELit ls => lit_find ls v
       end.
 
   (* ---------------------------------------------------------------- *)
@@ -563,6 +579,7 @@ Section Run.
           match v with
           | VObj _ [(_, inner)] => if chain_empty (is_chain b) inner then Ok (VList [VDict []]) else ref_enc inner t'
           | _ => Exn XAttributeError end
+      | SLit ls => lit_find ls v               (* one of the literals (same class, equal), as it is *)
       end.
 
   (* ---------------------------------------------------------------- *)
@@ -584,7 +601,8 @@ Section Run.
   | UData (c: string)
   | UNamed (c: string)                  (* C(u0(value[0]), ...) / the try-append-except IndexError function when C has defaults *)
   | UTyped (c: string)                  (* d = {}; d[k] = u(value[k]) ...; key_value = value.get(k, MISSING) ... *)
-  | UBox (b: box) (u: pdec).            (* collections.deque(u) / OrderedDict(u) / Counter(u) / defaultdict(T, u) / MappingProxyType(u) / ChainMap( *u ) *)
+  | UBox (b: box) (u: pdec)             (* collections.deque(u) / OrderedDict(u) / Counter(u) / defaultdict(T, u) / MappingProxyType(u) / ChainMap( *u ) *)
+  | ULit (ls: list pv).                 (* the literal whose class and value the input has, else ValueError *)
 
   Fixpoint cu (cbn: bool) (t: sty) {struct t} : pdec :=
     match t with
@@ -608,6 +626,7 @@ Section Run.
     | SSeq t' => UListComp (cu true t')
     | SMap kt vt => UDictComp (cu true kt) (cu true vt)
     | SBox b t' => UBox b (cu true t')
+    | SLit ls => ULit ls
     end.
 
   Definition coerce_s (s: scalar) (v: pv) : res pv :=
@@ -722,6 +741,7 @@ Section Run.
         | None => Exn XAttributeError
         | Some k => td_nondict konst_u k.(sc_fields) end
     | UBox b u' => r <- on_u u' s ;; Ok (box_val b r)
+    | ULit ls => lit_find ls (VStr s)
     end.
 
   Fixpoint uk (d: pv) {struct d} : pdec -> res pv :=
@@ -854,6 +874,7 @@ Section Run.
               end
           end
       | UBox b u' => r <- on_u u' ;; Ok (box_val b r)
+      | ULit ls => lit_find ls d
       end.
 
   (* ---------------------------------------------------------------- *)
@@ -966,6 +987,7 @@ Section Run.
         | None => Exn XAttributeError
         | Some k => td_nondict konst_t k.(sc_fields) end
     | SBox b t' => r <- on_t t' s ;; Ok (box_val b r)
+    | SLit ls => lit_find ls (VStr s)
     end.
 
   Fixpoint ref_dec_g (d: pv) {struct d} : sty -> res pv :=
@@ -1103,6 +1125,7 @@ Section Run.
       | SBox b t' =>
           (* the canonical concrete class built from the converted list / dict *)
           r <- on_t t' ;; Ok (box_val b r)
+      | SLit ls => lit_find ls d               (* the literal of the same class and value *)
       end.
   End Mode.
 End Run.
